@@ -154,7 +154,66 @@ def ctx(s):
     return "%s-%d-%s" % (m.group(1), int(m.group(2), 0), m.group(3)) if m else None
 put("dleqContextString", "str", ctx(comp), "PPOPRFv1-3-ristretto255-strobe")
 
+# --- STROBE call skeletons: the ordered list of Strobe constructor / method calls in each function
+# that builds a transcript. The Lean side (Lemmas/Skeleton.lean) proves that these are the
+# operation sequences the hand-written model implements, so a reordered, dropped, merged or
+# streamed (`more = true`) operation breaks a proof obligation, not only the correspondence.
+def skeleton(body):
+    if body is None:
+        return None
+    toks = []
+    for m in re.finditer(r'Strobe::new\(\s*(?:b"([^"]*)"|([A-Za-z_][A-Za-z0-9_.]*(?:\(\))?))|\.(ad|meta_ad|key|prf|send_enc|recv_enc|send_mac|recv_mac|send_clr|recv_clr|ratchet|meta_key|meta_prf|meta_send_enc|meta_recv_enc|meta_send_mac|meta_recv_mac)\(([^;]*?)\)\s*[;.?)]', body, re.S):
+        if m.group(3) is None:
+            toks.append("new(%s)" % (m.group(1) if m.group(1) is not None else "<" + m.group(2).split(".")[0] + ">"))
+        else:
+            args = m.group(4)
+            more = ":more" if re.search(r",\s*true\s*$", args.strip()) else ""
+            first = re.sub(r",\s*(?:true|false)\s*$", "", args.strip())
+            first = re.sub(r"&\s*mut\s+|&|\s+", "", first)
+            toks.append("%s(%s)%s" % (m.group(3), first, more))
+    return toks
+
+def digest_call(body):
+    """normalised arguments of the `strobe_digest(key, &[ads…], label, out)` call inside a function"""
+    if body is None:
+        return None
+    m = re.search(r"strobe_digest\(\s*(.*?)\s*,\s*&\[(.*?)\]\s*,\s*\"([^\"]*)\"\s*,", body, re.S)
+    if not m:
+        return None
+    norm = lambda t: re.sub(r"&\s*mut\s+|&|\s+", "", t)
+    return [norm(m.group(1))] + [norm(a) for a in m.group(2).split(",") if a.strip()] + ["label:" + m.group(3)]
+
+def impl_fn_body(src, impl_pat, fn):
+    m = re.search(impl_pat, src)
+    return fn_body(src[m.end():], fn) if m else None
+
+strobe_rng = strip_comments(read("star/src/strobe_rng.rs"))
+skels = {
+    "skelAdssShare": skeleton(share_fn),
+    "skelAdssVerify": skeleton(ver_fn),
+    "skelAdssRecover": skeleton(rec_fn),
+    "skelStarDigest": skeleton(fn_body(star, "strobe_digest")),
+    "skelStarEncrypt": skeleton(impl_fn_body(star, r"impl\s+Ciphertext\s*\{", "new")),
+    "skelStarDecrypt": skeleton(fn_body(star, "decrypt")),
+    "skelRngFill": skeleton(fn_body(strobe_rng, "fill_bytes")),
+    "skelRngFillAdss": skeleton(fn_body(strip_comments(read("adss/src/strobe_rng.rs")), "fill_bytes")),
+    "skelRngFillPpoprf": skeleton(fn_body(strip_comments(read("ppoprf/src/strobe_rng.rs")), "fill_bytes")),
+    "skelGgmPrgSetup": skeleton(setup),
+    "skelGgmPrgEval": skeleton(prg_eval),
+    "skelPpoprfHash": skeleton(fn_body(ppoprf, "strobe_hash")),
+    "callSampleLocal": digest_call(loc),
+    "callDeriveRandoms": digest_call(drv),
+    "callDeriveSkeKey": digest_call(ske),
+}
+for k, v in skels.items():
+    if v is None:
+        misses.append(k)
+        v = ["<not found>"]
+    vals[k] = ("strlist", v)
+
 def lean_val(kind, v):
+    if kind == "strlist":
+        return "List String", "[" + ", ".join('"%s"' % x.replace("\\", "\\\\").replace('"', '\\"') for x in v) + "]"
     if kind == "nat":
         return "Nat", str(v)
     if kind == "bool":
